@@ -6,6 +6,14 @@ the generation-mode sets {positive}, {negative}, {positive, negative}.  Their on
 ``coverage.cached_draw`` -> ``generate_one`` (an unseeded one-example Hypothesis run); that module global is replaced by
 an E1-driven draw (memoised per strategy identity within one execution, like the real ``lru_cache``), so "for every
 answer of the draw" becomes an enumeration.  The labels are judged by the independent evaluator.
+
+Review round 2 (enumerators in mc/c03_extra.py): written-out case-level documents (writing order / position of two and three
+parameters, three locations, one name in two locations, two and three media types - the body is judged against the schema of the
+media type the case carries -, the ``unexpected_methods`` argument, path items with more methods / ``head`` / ``summary`` /
+path-level parameters, the mode list written ``[negative, positive]``); the case descriptions ``Missing `x` at l``, ``Duplicate
+`x` query parameter`` and ``Unspecified HTTP method: M`` are checked against the parameter / method they name; value level: arrays
+with two length limits (equal, adjacent), uniqueItems over enum items, nested arrays, strings with equal limits >= 2, objects with
+three and more optional properties and other writing orders.
 """
 
 from __future__ import annotations
@@ -14,6 +22,7 @@ import copy
 import re
 from typing import Any, Callable
 
+from mc import c03_extra as extra
 from mc import smallscope as ss
 from mc.choicetree import Alphabet, Stats, draw_strategy, explore
 from mc.runner import Result, digest
@@ -29,6 +38,10 @@ RULE = (
     "which every cached_draw(strategy) answers with the k-th distinct valid value (k<m) of that strategy's own choice tree "
     "(<=d_local deviations over a character alphabet, simplest first: k=0 is the all-zero choice path when it is valid), memoised "
     "per strategy identity within the execution; all executions with <=d draws answering k>0 are run; "
+    "review round 2 adds written-out documents (mc/c03_extra.py): parameters in other writing orders / positions, three parameters and "
+    "three locations, one name in two locations, two and three media types, the unexpected_methods argument, path items with more "
+    "methods / head / summary / path-level parameters, the mode list [negative, positive]; and value-level arrays with two length "
+    "limits, nested arrays, strings with equal limits >= 2, objects with >= 3 optional properties; "
     "a case is non-trivial when a label was judged (True/False verdict) by the independent evaluator; distinct = distinct "
     "(schema/document, location, spec, modes, label, description, value)"
 )
@@ -451,6 +464,9 @@ def negative_leaf(root: dict, schema: Any, value: Any, desc: str, spec: str) -> 
     return schema, value, desc
 
 
+RX_CASE_MISSING = re.compile(r"^Missing `(.*)` at ([a-z]+)$", re.S)
+RX_CASE_DUPLICATE = re.compile(r"^Duplicate `(.*)` query parameter$", re.S)
+RX_CASE_METHOD = re.compile(r"^Unspecified HTTP method: (.*)$", re.S)
 RX_POS_OBJ = re.compile(r"^Object with valid '(.*?)' value: (.*)$", re.S)
 
 
@@ -624,9 +640,16 @@ def value_schemas(tier: str, spec: str, loc: str) -> list[tuple[str, dict]]:
     add("array", {"type": "array", "items": {"type": "string", "enum": ["x", "y"]}, "minItems": 1})
     add("array", {"type": "array", "items": {"type": "integer"}, "minItems": 1, "maxItems": 3, "uniqueItems": True})
     add("array", {"type": "array", "items": {"type": "object", "properties": {"a": {"type": "integer"}}, "required": ["a"]}})
+    # review round 2: both length limits at once (equal / adjacent), uniqueItems next to a limit and over enum items, nested arrays
+    for s in extra.array_limit_schemas(nested=loc == "body" or (loc == "query" and spec == "3.0")):
+        add("array_limits", s)
+    for s in extra.string_limit_schemas():
+        add("string_limits", s)
     if loc == "body":
         for s in _objects():
             add("object", s)
+        for s in extra.object_shape_schemas():
+            add("object_shapes", s)
     for s in _combinators(spec):
         add("combinator", s)
     for s in _author_values():
@@ -703,6 +726,9 @@ def items(tier: str, seed: int) -> list[dict]:
     for loc in ("query", "header", "path"):
         out.append({"level": "case", "spec": "2.0", "loc": loc, "family": "int_range", "schema": CASE_SCHEMAS[0][1], "required": True,
                     "companion": "none" if loc == "path" else "optional_same", "body": "none", "methods": 1})
+    # review round 2 (mc/c03_extra.py): documents written out - writing order / position / three parameters / three locations, one name
+    # in two locations, several media types, the unexpected_methods argument and path-item shapes, the mode list in the other order
+    out.extend(extra.layout_items())
     # spread the (fewer, slower) case-level items evenly over the value-level ones
     cases = [i for i in out if i["level"] == "case"]
     values = [i for i in out if i["level"] == "value"]
@@ -717,6 +743,8 @@ def items(tier: str, seed: int) -> list[dict]:
 
 def build(item: dict) -> tuple[dict, dict]:
     """(document, declared) - ``declared`` is what the oracle reads: the schemas as written."""
+    if item.get("params") is not None:
+        return _build_layout(item)
     spec, loc = item["spec"], item["loc"]
     schema = copy.deepcopy(item["schema"])
     params: list[dict] = []
@@ -754,6 +782,56 @@ def build(item: dict) -> tuple[dict, dict]:
         methods.append("put")
     declared = {"params": params, "body": body, "path": path, "method": method, "methods": methods}
     return doc, declared
+
+
+def _build_layout(item: dict) -> tuple[dict, dict]:
+    """A document written out by mc/c03_extra.layout_items: parameters in their writing order, 0..3 media types, more methods."""
+    spec, path, method = item["spec"], item["path"], item["method"]
+    params = copy.deepcopy(item["params"])
+    path_level = copy.deepcopy(item["path_level"])
+    body = None
+    if item["bodies"]:
+        body = {"required": item["required"], "content": {mt: {"schema": copy.deepcopy(s)} for mt, s in item["bodies"]}}
+    doc = ss.make_document(spec, path=path, method=method, parameters=copy.deepcopy(params), body=copy.deepcopy(body))
+    operation = doc["paths"][path][method]
+    if spec == "2.0":
+        assert not path_level
+        if item["bodies"]:
+            # Swagger 2.0 has one body schema; the media types are the entries of `consumes`
+            assert all(json_equal(s, item["bodies"][0][1]) for _, s in item["bodies"])
+            operation["consumes"] = [mt for mt, _ in item["bodies"]]
+    path_item: dict[str, Any] = {}
+    if item["summary"]:
+        path_item["summary"] = "s"
+    if path_level:
+        path_item["parameters"] = copy.deepcopy(path_level)
+    path_item[method] = operation
+    for other in item["other_methods"]:
+        path_item[other] = {"responses": {"200": {"description": "OK"}}}
+    doc["paths"][path] = path_item
+    # what the oracle reads: every parameter with its requiredness spelled out (an omitted `required` means false; path: true)
+    declared_params = [{**p, "required": bool(p.get("required", False))} for p in params + path_level]
+    declared = {"params": declared_params, "body": body, "path": path, "method": method, "methods": [method] + list(item["other_methods"])}
+    return doc, declared
+
+
+def _body_schema(declared: dict, media_type: Any) -> Any:
+    """The schema declared for ``media_type``.
+
+    A body with one declared media type has one schema whatever the case calls it (as in the first version of this check);
+    with several, a media type the body does not declare leaves the question open (None).
+    """
+    content = declared["body"]["content"] if declared["body"] else {}
+    if media_type in content:
+        return content[media_type]["schema"]
+    if len(content) == 1:
+        return next(iter(content.values()))["schema"]
+    return None
+
+
+def _unexpected(item: dict) -> set[str] | None:
+    um = item.get("unexpected_methods")
+    return set(um) if um else None
 
 
 # ---------------------------------------------------------------------------------------------------------------------
@@ -802,6 +880,8 @@ def _check_values(res: Result, item: dict, tier: str, doc: dict, declared: dict,
     decl_schema = item["schema"]
     exempt_schema = has_author_values(decl_schema)
     judged: dict[str, tuple] = {}
+    if item["family"] in ("array_limits", "string_limits", "object_shapes"):
+        res.count("items_of_family:" + item["family"])
     for mode_names in MODE_SETS:
         modes = _modes(mode_names)
 
@@ -962,11 +1042,13 @@ def _check_cases(res: Result, item: dict, tier: str, doc: dict, declared: dict, 
 
     b = BOUNDS[tier]
     judged: set[str] = set()
-    for mode_names in MODE_SETS:
+    # the mode list is a list whose order must not matter: the small layouts are also run with it written the other way round
+    mode_sets = MODE_SETS + ((["negative", "positive"],) if item.get("reversed_modes") else ())
+    for mode_names in mode_sets:
         modes = _modes(mode_names)
 
         def run() -> list:
-            return list(_iter_coverage_cases(operation, list(modes)))
+            return list(_iter_coverage_cases(operation, list(modes), _unexpected(item)))
 
         for ex, log, draw_kind in run_tree(run, tier, b["m_case"], b["d"], res, stable_cache):
             res.evaluations += 1
@@ -1019,9 +1101,16 @@ def _judge_case(res: Result, item: dict, doc: dict, declared: dict, mode_names: 
     dclass = desc_class(desc)
     res.count("cases_judged")
     res.count("casedesc:" + dclass.split(":")[0][:48])
-    detail = {"item": {k: item[k] for k in ("spec", "loc", "schema", "required", "companion", "body", "methods")}, "modes": mode_names,
-              "case_index": index, "case": summary, "choices": choices, "draws": log}
-    modes_key = "+".join(mode_names)
+    detail = {"item": {k: item[k] for k in ("spec", "loc", "schema", "required", "companion", "body", "methods", "family", "params", "bodies",
+                                             "other_methods", "unexpected_methods", "path_level") if k in item},
+              "modes": mode_names, "case_index": index, "case": summary, "choices": choices, "draws": log}
+    modes_key = "+".join(m for m in ("positive", "negative") if m in mode_names)  # a fact of the set, not of its writing order
+    if item.get("params") is not None:
+        res.count("layout_cases_judged:" + item["family"].split(":")[0])
+        if mode_names == ["negative", "positive"]:
+            res.count("cases_judged_with_the_mode_list_reversed")
+        if declared["body"] and summary["media_type"] is not None and summary["media_type"] != next(iter(declared["body"]["content"])):
+            res.count("cases_of_a_later_media_type")
     mode = summary["mode"]
     components = summary["components"]
     under_test = summary["parameter_location"] or "none"
@@ -1044,6 +1133,16 @@ def _judge_case(res: Result, item: dict, doc: dict, declared: dict, mode_names: 
     described_as_missing = desc.startswith("Missing `")
     if described_as_missing and not removed:
         alarm({**base, "kind": "description_says_missing_but_parameter_present"}, detail)
+    named = RX_CASE_MISSING.match(desc)
+    if named and removed:
+        # "violates it in the way its description says": the parameter the description names is a declared required one of that
+        # location and it is the one that is absent (another removed parameter does not make this description true)
+        nname, nloc = named.group(1), named.group(2)
+        container = summary[common.CONTAINER[nloc]] if nloc in common.CONTAINER else None
+        is_required = any(p["name"] == nname and p["in"] == nloc and p["required"] for p in declared["params"])
+        res.count("missing_descriptions_checked_by_name")
+        if nloc not in common.CONTAINER or not is_required or (container is not None and nname in container):
+            alarm({**base, "kind": "description_names_another_parameter_than_the_removed_one"}, detail)
     duplicated = desc.startswith("Duplicate ")
     if duplicated:
         reasons.append("parameter_duplicated")
@@ -1051,11 +1150,24 @@ def _judge_case(res: Result, item: dict, doc: dict, declared: dict, mode_names: 
         value = (summary["query"] or {}).get(name)
         if not (isinstance(value, list) and len(value) == 2 and json_equal(value[0], value[1])):
             alarm({**base, "kind": "description_says_duplicate_but_value_is_not_doubled"}, detail)
+        named = RX_CASE_DUPLICATE.match(desc)
+        if named and named.group(1) != name:
+            value = (summary["query"] or {}).get(named.group(1))
+            res.count("duplicate_descriptions_naming_another_parameter")
+            if not (isinstance(value, list) and len(value) == 2 and json_equal(value[0], value[1])):
+                alarm({**base, "kind": "description_names_another_parameter_than_the_duplicated_one"}, detail)
     unknown_method = case.method.lower() not in declared["methods"]
     if unknown_method:
         reasons.append("unspecified_method")
     if desc.startswith("Unspecified HTTP method") != unknown_method:
         alarm({**base, "kind": "description_disagrees_with_method"}, detail)
+    named = RX_CASE_METHOD.match(desc)
+    if named:
+        res.count("method_descriptions_checked_by_name")
+        if _unexpected(item) is not None:
+            res.count("unexpected_method_cases_of_a_custom_set")
+        if named.group(1).upper() != str(case.method).upper():
+            alarm({**base, "kind": "description_names_another_method_than_the_one_used"}, detail)
     if mode not in mode_names:
         alarm({**base, "kind": "case_label_outside_requested_modes", "label": mode, "modes": modes_key}, detail)
     expected_negative = bool(reasons)
@@ -1076,10 +1188,14 @@ def _judge_case(res: Result, item: dict, doc: dict, declared: dict, mode_names: 
         conforming = None
         sibling = False
         if kind == "body":
+            # the body is judged against the schema declared for the media type the case says it has
+            bschema = _body_schema(declared, summary["media_type"])
             if declared["body"] is None or case.body is NOT_SET:
                 v, why = None, []
+            elif bschema is None:
+                res.count("body_of_an_undeclared_media_type")
+                v, why = None, []
             else:
-                bschema = declared["body"]["content"]["application/json"]["schema"]
                 v = verdict(doc, bschema, case.body, spec=spec)
                 why = [] if v is not False else common.failing_keywords(doc, bschema, case.body, "body", spec)
                 if v is True and label == "negative":
@@ -1126,7 +1242,9 @@ def _judge_case(res: Result, item: dict, doc: dict, declared: dict, mode_names: 
 
 def _declared_type(declared: dict, location: str, name: Any) -> str:
     if location == "body":
-        schema = declared["body"]["content"]["application/json"]["schema"] if declared["body"] else {}
+        schema = _body_schema(declared, name)  # body cases name their media type
+        if schema is None:
+            schema = next(iter(declared["body"]["content"].values()))["schema"] if declared["body"] else {}
     else:
         found = [p["schema"] for p in declared["params"] if p["in"] == location and p["name"] == name]
         if not found:
@@ -1148,8 +1266,8 @@ def _check_attached(res: Result, item: dict, tier: str, doc: dict, declared: dic
         def test(case: Any) -> None:  # pragma: no cover - never called
             pass
 
-        direct = [_summary(c) for c in builder._iter_coverage_cases(operation, list(modes))]
-        attached = builder.add_coverage(test, operation, list(modes), None, {}, None)
+        direct = [_summary(c) for c in builder._iter_coverage_cases(operation, list(modes), _unexpected(item))]
+        attached = builder.add_coverage(test, operation, list(modes), None, {}, _unexpected(item))
         examples = list(getattr(attached, "hypothesis_explicit_examples", []))
         got["direct"] = direct
         got["attached"] = [_summary(e.kwargs["case"]) for e in examples]
@@ -1189,6 +1307,20 @@ def vacuity(total: Result, tier: str) -> list[str]:
         "casedesc:Duplicate `*` query parameter": "no 'duplicate parameter' case seen",
         "casedesc:Unspecified HTTP method": "no 'unspecified method' case seen",
         "casedesc:Only required properties": "no parameter-combination case seen",
+        # review round 2
+        "layout_cases_judged:order": "no case of a written-out parameter layout (order / position / three parameters) judged",
+        "layout_cases_judged:samename": "no case of an operation with one parameter name in two locations judged",
+        "layout_cases_judged:media": "no case of an operation with several media types judged",
+        "layout_cases_judged:methods": "no case of the path-item / unexpected_methods layouts judged",
+        "cases_of_a_later_media_type": "no case carrying the second or third media type of a request body seen",
+        "cases_judged_with_the_mode_list_reversed": "no case generated with the mode list [negative, positive]",
+        "unexpected_method_cases_of_a_custom_set": "no unspecified-method case generated from a custom unexpected_methods set",
+        "missing_descriptions_checked_by_name": "no 'Missing `x` at l' description checked against the removed parameter",
+        "method_descriptions_checked_by_name": "no 'Unspecified HTTP method: M' description checked against the method used",
+        "items_of_family:array_limits": "no array schema with two length limits / nested arrays enumerated",
+        "items_of_family:string_limits": "no string schema with minLength == maxLength >= 2 enumerated",
+        "items_of_family:object_shapes": "no object schema of the review-round-2 shapes enumerated",
+        "desc:Object with all required and a subset of optiona": "no object with three optional properties (subset values) seen",
     }
     for key, msg in need.items():
         if not c.get(key):
